@@ -107,6 +107,35 @@ fn ord_code(o: Ordering) -> i8 {
     }
 }
 
+
+/// compare_segments on pairs of left events whose x-extents overlap: [a, b, cmp(a,b), cmp(b,a)]
+fn seg_block<F: Fl>(evs: &[Rc<SweepEvent<F>>], ids: &mut Ids<F>, rng: &mut Rng, matrix_max: usize) -> String {
+    let lefts: Vec<Rc<SweepEvent<F>>> = evs.iter().filter(|e| e.is_left() && e.get_other_event().is_some()).cloned().collect();
+    let mut seg = String::from("[");
+    let mut first = true;
+    let nl = lefts.len();
+    let full = nl <= matrix_max;
+    let total = if full { nl * nl } else { matrix_max * matrix_max };
+    for t in 0..total {
+        let (i, j) = if full { (t / nl, t % nl) } else { (rng.below(nl as u64) as usize, rng.below(nl as u64) as usize) };
+        if i > j {
+            continue;
+        }
+        let (p, q) = (&lefts[i], &lefts[j]);
+        let (po, qo) = (p.get_other_event().unwrap(), q.get_other_event().unwrap());
+        if p.point.x > qo.point.x || q.point.x > po.point.x {
+            continue;
+        }
+        if !first {
+            seg.push(',');
+        }
+        first = false;
+        let _ = write!(seg, "[{},{},{},{}]", ids.id(p), ids.id(q), ord_code(compare_segments(p, q)), ord_code(compare_segments(q, p)));
+    }
+    seg.push(']');
+    seg
+}
+
 fn mp_json(mp: &IMp) -> String {
     let g = run::to_geo::<f64>(mp, 0);
     run::json_snapped(&run::snap(&g, 0, 1.0))
@@ -195,6 +224,8 @@ pub fn stage_run<F: Fl>(rid: u64, family: &str, seed: u64, a: &IMp, b: &IMp, op:
         s
     };
     let _ = write!(out, ",\"cmp0\":{}", cmp_block(&fq, &mut ids, rng));
+    let seg0 = seg_block(&fq, &mut ids, rng, matrix_max);
+    let _ = write!(out, ",\"seg0\":{}", seg0);
     // subdivision
     let n_edges = (gen::n_edges(a) + gen::n_edges(b)) as u64;
     geo_booleanop::boolean::verif::set_budget(8 * n_edges * n_edges + 64);
@@ -236,30 +267,7 @@ pub fn stage_run<F: Fl>(rid: u64, family: &str, seed: u64, a: &IMp, b: &IMp, op:
             let mut after: Vec<Rc<SweepEvent<F>>> = sorted.clone();
             after.extend(rest.iter().cloned());
             let _ = write!(out, ",\"cmp1\":{}", cmp_block(&after, &mut ids, rng));
-            // segment order on pairs of left events (with a right event) whose x-extents overlap
-            let lefts: Vec<Rc<SweepEvent<F>>> = after.iter().filter(|e| e.is_left() && e.get_other_event().is_some()).cloned().collect();
-            let mut seg = String::from("[");
-            let mut first = true;
-            let nl = lefts.len();
-            let full = nl <= matrix_max;
-            let total = if full { nl * nl } else { matrix_max * matrix_max };
-            for t in 0..total {
-                let (i, j) = if full { (t / nl, t % nl) } else { (rng.below(nl as u64) as usize, rng.below(nl as u64) as usize) };
-                if i > j {
-                    continue;
-                }
-                let (p, q) = (&lefts[i], &lefts[j]);
-                let (po, qo) = (p.get_other_event().unwrap(), q.get_other_event().unwrap());
-                if p.point.x > qo.point.x || q.point.x > po.point.x {
-                    continue;
-                }
-                if !first {
-                    seg.push(',');
-                }
-                first = false;
-                let _ = write!(seg, "[{},{},{},{}]", ids.id(p), ids.id(q), ord_code(compare_segments(p, q)), ord_code(compare_segments(q, p)));
-            }
-            seg.push(']');
+            let seg = seg_block(&after, &mut ids, rng, matrix_max);
             let _ = write!(out, ",\"seg\":{}}}", seg);
         }
     }
